@@ -26,7 +26,7 @@ def view_c13(op, line):
     return ""
 
 
-NOTIF = ("", " plain", " konly", " vonly")
+NOTIF = ("", " plain", " konly", " vonly", " wide", " plain wide", " konly wide", " vonly wide")
 
 
 def exhaustive_orders(nkeys):
@@ -36,7 +36,7 @@ def exhaustive_orders(nkeys):
     for ty in ("rb", "avl", "bst"):
         for ci, (io, ro) in enumerate(itertools.product(itertools.permutations(keys), itertools.permutations(keys))):
             if True:
-                ops = ["new %s%s" % (ty, NOTIF[ci % 4])]
+                ops = ["new %s%s" % (ty, NOTIF[ci % 8])]
                 for k in io:
                     ops += ["ins %d" % k]
                 ops += ["shape"]
@@ -50,10 +50,10 @@ def exhaustive_seqs(depth, nkeys=4):
     alphabet = ["ins %d" % k for k in keys] + ["rem %d" % k for k in keys]
     for ty in TYPES:
         for ci, seq in enumerate(itertools.product(alphabet, repeat=depth)):
-            ops = ["new %s%s" % (ty, NOTIF[ci % 4])]
+            ops = ["new %s%s" % (ty, NOTIF[ci % 8])]
             for o in seq:
                 ops += [o, "shape"]
-            ops += ["each 0", "each 2", "shape", "clear", "count"]
+            ops += ["each 0", "each 2", "shape"] + (["clear", "count"] if (ci // 8) % 2 == 0 else ["free"])
             yield ops
 
 
@@ -66,6 +66,14 @@ def gen_random(rng, chk, nops):
     chk.bump("flags:" + (flags.strip() or "notifiers"))
     universe = rng.choice([8, 30, 200, 2000])
     nulls = rng.choice([0, 0, 0, 0.1, 0.3])          # NULL (integer 0 / no payload) as key and as value
+    nk = 0
+    if rng.random() < 0.5:
+        flags += " wide"                             # comparator answers INT_MIN / INT_MAX / differences, not only -1 / 1
+        chk.bump("comparator:wide")
+    if nulls and rng.random() < 0.5:
+        nk = rng.randrange(1, universe + 1)          # the NULL key orders somewhere inside the key range, not below it
+        flags += " nk=%d" % nk
+        chk.bump("nullkey:inside-range")
     oom = rng.choice([0, 0, 0.05, 0.25])             # inserts attempted while the allocator is out of memory
     chk.bump("oom:%s" % oom)
     chk.bump("nulls:%s" % nulls)
@@ -99,7 +107,7 @@ def gen_random(rng, chk, nops):
                     ops.append("insv %d" % k)
                 else:
                     ops.append(w)
-                    k = 0
+                    k = nk
             else:
                 ops.append("ins %d" % k)
             present.add(k)
@@ -110,10 +118,17 @@ def gen_random(rng, chk, nops):
             ops.append("rem %d" % k)
             present.discard(k)
         elif r < 0.92:
-            ops.append("get %d" % k)
+            if nulls and rng.random() < 0.3:
+                ops.append(rng.choice(["getn", "getn", "remn"]))      # the NULL pointer itself as the probe key
+                if ops[-1] == "remn":
+                    present.discard(nk)
+            else:
+                ops.append("get %d" % k)
         elif r < 0.97:
             j = rng.choice([0, 1, 2, max(1, len(present) // 2), len(present), len(present) + 1])
-            ops += ["shape", "each %d" % j]
+            ops += ["shape", "each %d" % j, "shape"]
+            if rng.random() < 0.2:
+                ops.append("api")
         elif r < 0.98:
             ops.append("clear")
             present.clear()
@@ -121,8 +136,58 @@ def gen_random(rng, chk, nops):
             ops.append("count")
         if nops <= 80 or rng.random() < 0.15:
             ops.append("shape")
-    ops += ["shape", "each 0", "count", "clear", "shape"]
+    ops += ["shape", "each 0", "count"] + rng.choice([["clear", "shape"], ["free"], ["api", "free"], ["clear", "ins 1", "free"]])
     return ops
+
+
+def perfect(n):
+    """insertion order that builds the perfectly balanced tree of 2^n - 1 keys in every variant (level order)"""
+    out, step = [], 2 ** n
+    while step > 1:
+        out += list(range(step // 2, 2 ** n, step))
+        step //= 2
+    return out
+
+
+def extra_cases():
+    """directed cases for the inputs the property quantifies over and that random op files reach only by luck:
+    comparator results of any magnitude, the NULL pointer as probe key, NULL keys ordered inside the key range,
+    p_tree_free with content (what it hands to the notifiers), every stop point of a traversal of a deep tree,
+    an allocation failure on the empty tree, the remaining entry points (get_type, NULL arguments)"""
+    cases = []
+    for ty in TYPES:
+        for flags in ("", " plain", " konly", " vonly data", " plain data"):
+            # comparator magnitudes: build 15, look everything up, remove in two orders
+            for order in (perfect(4), list(range(1, 16)), list(range(15, 0, -1))):
+                ops = ["new %s%s wide" % (ty, flags)] + ["ins %d" % k for k in order] + ["shape"] + ["get %d" % k for k in (1, 8, 15, 16)]
+                cases.append(ops + [x for k in order for x in ("rem %d" % k, "shape")] + ["each 0", "free"])
+                cases.append(ops + [x for k in reversed(order) for x in ("ins %d" % k, "rem %d" % k)] + ["shape", "each 0", "free"])
+            # free with content: 0, 1, 2, 3, 7 pairs, NULL key / NULL value among them; nothing may be destroyed twice or kept
+            for build in ([], [1], [2, 1], [1, 2], [2, 1, 3], perfect(3)):
+                base = ["new %s%s" % (ty, flags)] + ["ins %d" % k for k in build]
+                cases.append(base + ["free"])
+                cases.append(base + ["insk", "insv 2", "free"])
+                cases.append(base + ["api", "each 1", "free", "count"])
+                cases.append(base + ["clear", "free"])
+                cases.append(base + ["rem 2", "ins 2", "ins 2", "free"])
+            # the NULL pointer as probe: no NULL key stored / stored as smallest / stored inside the range (root, inner, leaf)
+            cases.append(["new %s%s" % (ty, flags), "getn", "remn", "ins 1", "getn", "remn", "ins 0", "getn", "remn", "count", "free"])
+            for nk in (0, 4, 2, 1, 7):
+                for first in (True, False):
+                    b = perfect(3)
+                    b.remove(nk) if nk in b else None
+                    ops = ["new %s%s nk=%d" % (ty, flags, nk)] + (["insk"] if first else []) + ["ins %d" % k for k in b] + ([] if first else ["insk"])
+                    cases.append(ops + ["shape", "getn", "get %d" % nk, "each 0", "remn", "shape", "getn", "remn", "each 0", "inskv", "getn", "each 3", "free"])
+                    cases.append(ops + ["rem %d" % nk, "shape", "getn", "insk", "ins %d" % nk, "each 0", "shape", "remn", "clear", "getn", "free"])
+            # allocation failure on the empty tree and right after clear
+            cases.append(["new %s%s" % (ty, flags), "insf 1", "shape", "count", "each 0", "ins 1", "insf 1", "insf 2", "shape", "clear", "insf 3", "shape", "ins 3", "free"])
+        # every stop point of a traversal of a 15- and a 31-node tree (threads at several depths are live when it stops)
+        for n in (4, 5):
+            b = ["new %s" % ty] + ["ins %d" % k for k in perfect(n)]
+            cases.append(b + [x for j in range(0, 2 ** n + 1) for x in ("each %d" % j, "shape")] + ["each 0", "api", "free"])
+        cases.append(["new %s" % ty] + ["ins %d" % k for k in range(1, 20)] + [x for j in range(0, 21) for x in ("each %d" % j, "shape")] + ["free"])
+        cases.append(["new %s" % ty] + ["ins %d" % k for k in range(20, 0, -1)] + [x for j in range(0, 21) for x in ("each %d" % j, "shape")] + ["free"])
+    return cases
 
 
 def oom_cases():
@@ -166,7 +231,7 @@ def run(chk, prop, view, modules, label):
     fam.keep_prefix = 1      # the `new …` line is the case's configuration, never shrunk away
     thorough = chk.tier == "thorough"
     rng = chk.rng
-    cases = pv.load_corpus("trees") + pv.load_corpus(prop) + null_cases() + oom_cases()
+    cases = pv.load_corpus("trees") + pv.load_corpus(prop) + null_cases() + oom_cases() + extra_cases()
     ex = list(exhaustive_seqs(4 if thorough else 3))
     nk = 5 if thorough else 4
     exo = list(exhaustive_orders(nk))
@@ -178,6 +243,7 @@ def run(chk, prop, view, modules, label):
     diffrun.conclude(chk, found, corr, thm, proof_ok and driver_ok, detail, label)
     chk.cov["rule"] = ("op files on bst/rb/avl trees with and without notifiers and comparator data: all op sequences of small depth over 4 keys, all insertion x removal orders of %d keys, "
                        "random sequences (uniform, duplicate-heavy, ascending, descending, zig-zag, delete-heavy) over universes 8..2000; tree shape (from comparator probes) compared with the model after the ops; "
-                       "distinct by op-file hash" % nk)
+                       "comparator results of any magnitude (wide), NULL pointer as key / value / probe with the NULL key ordered below or inside the key range, inserts under allocation failure, "
+                       "p_tree_free with content, every stop point of deep traversals, get_type and NULL-argument entry points; distinct by op-file hash" % nk)
     chk.assumptions += ["comparator is a total order on key ordinals", "allocation never fails here (C18)"]
     return chk.finish()
